@@ -445,8 +445,16 @@ func (r *Run) Do(o Op) OpResult {
 				r.Scopes = append(r.Scopes, &ScopeH{S: s, Parent: o.Scope, Cancel: cancel, CtxKey: key})
 				res.NewScope = len(r.Scopes) - 1
 				r.mu.Unlock()
-			} else if cancel != nil {
-				cancel()
+			} else {
+				if err != nil && s != nil {
+					// a value next to the error: what callers test with `if sc != nil { defer sc.Close() }`
+					r.mu.Lock()
+					r.sliceFs = append(r.sliceFs, Finding{"value-returned-with-error", "CreateScope", fmt.Sprintf("op%d %s returned an error (%v) together with a non-nil Scope value (%T)", opIdx, o.String(), trimErr(err), s)})
+					r.mu.Unlock()
+				}
+				if cancel != nil {
+					cancel()
+				}
 			}
 		case OpGet:
 			t := pool.T(o.Type)
